@@ -1,6 +1,6 @@
 (* C04: linearity of the stencils / of split-diff-combine, and the periodic (ring) form. *)
 From Coq Require Import Field.
-From DF Require Import Prelude FieldK NDArray Diff ListLemmas C04_proofs.
+From DF Require Import Prelude Constants_gen FieldK NDArray Diff ListLemmas C04_proofs.
 
 Section Lin.
 Variable K : FOps.
@@ -42,9 +42,8 @@ Lemma d2_at_lin a b u w h j : length u = length w ->
 Proof.
   intros Hl. unfold d2_at. rewrite lin_length by exact Hl. rewrite <- Hl.
   rewrite !nth_lin by exact Hl.
-  destruct (length u <? 4)%nat; [rewrite !fdiv_def; ring|].
-  destruct (j =? 0)%nat; [rewrite !fdiv_def; ring|].
-  destruct (j =? length u - 1)%nat; rewrite !fdiv_def; ring.
+  destruct (length u <? 4)%nat; destruct (j =? 0)%nat; try destruct (j =? length u - 1)%nat;
+    norm_stencil; rewrite !fdiv_def; ring.
 Qed.
 
 Lemma lin_zeros a b (u w : list K) : length u = length w ->
